@@ -552,9 +552,18 @@ fn query_edges() -> Vec<Vec<u8>> {
 
 pub fn run_one(parse: Parser, input: &[u8]) -> (&'static str, String) {
     LAST_PANIC.with(|p| p.borrow_mut().clear());
+    // CPU time of this thread, not wall-clock time: the machine may be shared, and "slow" is about the work an input
+    // causes (a bound of 5 s of computation for one document)
+    fn thread_cpu() -> f64 {
+        let mut ts = libc::timespec { tv_sec: 0, tv_nsec: 0 };
+        unsafe { libc::clock_gettime(libc::CLOCK_THREAD_CPUTIME_ID, &mut ts) };
+        ts.tv_sec as f64 + ts.tv_nsec as f64 * 1e-9
+    }
     let t = Instant::now();
+    let c0 = thread_cpu();
     let res = std::panic::catch_unwind(|| parse(input));
-    let slow = t.elapsed().as_secs_f64() > 2.0;
+    let slow = thread_cpu() - c0 > 5.0;
+    let _ = t;
     match res {
         Err(_) => ("panic", LAST_PANIC.with(|p| p.borrow().clone())),
         Ok(_) if slow => ("slow", String::new()),
